@@ -31,8 +31,7 @@ Definition field_info (s : schema) (f : fdesc) : info :=
       end in
   let '(k0, p0) :=
       match fty f with
-      | TScalar KString | TScalar KBytes => (GInternal (match fty f with TScalar k => k | _ => KString end), optional_kw)
-      | TScalar k => (GInternal k, has_presence)
+      | TScalar k => (GInternal k, if is_bytes_kind k then optional_kw else has_presence)   (* string/bytes: HasOptionalKeyword only *)
       | TEnum => (GEnum, has_presence)
       | TMap kk vk => (GCast (CastMap kk vk), false)
       | TMapOther => (GMapUnsupported, false)
